@@ -35,8 +35,14 @@ CLAIMED = {
     "C11": ("deterministic simulation under the Go race detector: simulator hand-offs hidden (RaceDisable), shims annotated with the real primitives' happens-before edges",
             T("the same kinds of concurrent workloads are rebuilt with -race; the detector sees only the program's own synchronisation, on schedules the simulator chooses, and reports are attributed to the seed that produced them."),
             NOTE + " The race detector's own shadow memory is bounded, so a report may need more than one fresh process to recur on replay.", "DESIGN.md sections 3.8, 5 (C11)"),
+    "C13": ("deterministic simulation; porcupine linearizability of the recorded Get/Commit/Rollback/Buffer/Close history against a sequential model, conservation at the end",
+            T("feeds a source channel, issues concurrent Get/Commit/Rollback/Buffer/Close with cancels, parent-context cancels and source closes, checks the stamped history for linearizability (inconclusive results are counted, never reported) and checks conservation, no zero values, nothing taken after Done."), NOTE, "DESIGN.md section 5 (C13)"),
     "C14": ("deterministic simulation; exactly-once/result identity, online concurrency bound, starvation and Wait oracles at quiescence",
             T("drives Workers with equal, arbitrary and decreasing counts and functions held on gates; checks exactly-once execution, the running bound against the largest count requested so far, no starvation at quiescence, and Wait/Count."), NOTE, "DESIGN.md section 5 (C14)"),
+    "C15": ("deterministic simulation; per-publish receipt accounting with eligibility brackets, misuse injection, quiescence oracle for stuck publishes",
+            T("varies keys, element types, subscription styles, receiver readiness, context cancels during a publish and published values including nil; each publish must reach exactly the subscriptions that were eligible throughout it, once; duplicate Subscribe / unmatched Unsubscribe must panic and change nothing."), NOTE, "DESIGN.md section 5 (C15)"),
+    "C16": ("deterministic simulation; observation table over cancel orders and truly concurrent cancels inside the instrumented context package",
+            T("draws inputs (plain, parent-cancelled, foreign, timeout, nil, duplicate, pre-cancelled), cancels them from several tasks in drawn orders, and checks cancelled-iff tables, Value delegation and exactly-once hooks; liveness only at quiescence."), NOTE, "DESIGN.md section 5 (C16)"),
     "C17": ("deterministic simulation; per-step stop-channel polling for exact close stamps, interval and holder oracles",
             T("interleaves Do/done of 1-5 holders with instances starting, stopping and exiting; a per-step hook stamps exactly when each stop channel closes, so 'stopped only after every holder is done' is decided exactly."), NOTE, "DESIGN.md section 5 (C17)"),
 }
